@@ -251,6 +251,21 @@ func (x *explorer) execute(mode string, seqs [][]int) {
 		x.nextID++
 	}
 	x.total += len(jobs)
+	if fn := os.Getenv("VERIF_C04_RUNCHUNK"); fn != "" { // debugging aid: re-run one saved chunk several times
+		var js []job
+		b, _ := os.ReadFile(fn)
+		json.Unmarshal(b, &js)
+		for r := 0; r < 10; r++ {
+			for _, o := range runChunk(js) {
+				for _, f := range o.findings() {
+					if f.Kind == "acked-rows-missing" {
+						fmt.Printf("RUNCHUNK run=%d job=%d %v %s\n", r, o.Job.ID, o.Job.Seq, f.key())
+					}
+				}
+			}
+		}
+		os.Exit(0)
+	}
 	const chunk = 128
 	var chunks [][]job
 	for i := 0; i < len(jobs); i += chunk {
@@ -278,6 +293,17 @@ func (x *explorer) execute(mode string, seqs [][]int) {
 					return
 				}
 				outs := runChunk(chunks[i])
+				if os.Getenv("VERIF_C04_DEBUGCHUNK") != "" { // debugging aid: keep the chunk of a bulk observation
+					for k := range outs {
+						for _, f := range outs[k].findings() {
+							if f.Kind == "acked-rows-missing" {
+								b, _ := json.Marshal(chunks[i])
+								os.WriteFile(fmt.Sprintf("/dev/shm/c04_chunk_%d.json", i), b, 0o644)
+								fmt.Printf("DEBUGCHUNK %d job=%d %v %s\n", i, outs[k].Job.ID, outs[k].Job.Seq, f.key())
+							}
+						}
+					}
+				}
 				x.mu.Lock()
 				for k := range outs {
 					o := &outs[k]
